@@ -471,10 +471,17 @@ def call_and_check(name, P):
                 msgs.append(f"edge that is not an {m}-subset of the nodes: {sorted(map(sorted, es))}")
             deg = H.nodes.degree.asdict()
             kk = getattr(H, "_verif_k", k)
-            slack = 0 if sum(k.values()) % m == 0 else 1
-            over = {v: (deg[v], k[v]) for v in k if deg[v] > k[v] + slack or deg[v] > kk[v]}
-            if over:
-                msgs.append(f"degrees exceed the prescribed ones: {over}")
+            if kk != k:
+                msgs.append(f"the degree sequence passed in was modified: {kk} (was {k})")
+            # a sequence whose sum is not a multiple of m is documented to be repaired by raising the degree of
+            # m - remainder random nodes by one: that is the only excess allowed
+            rem = sum(k.values()) % m
+            slack = 0 if rem == 0 else 1
+            budget = 0 if rem == 0 else m - rem
+            over = {v: (deg[v], k[v]) for v in k if deg[v] > k[v] + slack}
+            if over or sum(max(0, deg[v] - k[v]) for v in k) > budget:
+                msgs.append(f"degrees exceed the prescribed ones (beyond the documented repair of {budget} stubs): "
+                            f"{over or {v: (deg[v], k[v]) for v in k if deg[v] > k[v]}}")
             return msgs
 
         return call, None, oracle, None
